@@ -1,6 +1,7 @@
 import GoframeModel.Ops.Sort
 import GoframeModel.Spec.SortDedup
 import GoframeModel.Lemmas.Refine
+import GoframeModel.Lemmas.Sort
 /-
   C06 — SortValues returns an ordered permutation of whole rows.
   `sort.Sort` is a parameter with the contract `SortContractSWO` (given a strict weak order it returns
@@ -8,7 +9,7 @@ import GoframeModel.Lemmas.Refine
   whole rows, the copy, and the existence check.
 -/
 namespace Goframe.C06
-open Goframe Frame
+open Goframe Frame SortLemmas
 
 structure StrictWeakOrder {α : Type} (lt : α → α → Bool) : Prop where
   irrefl : ∀ a, lt a a = false
@@ -32,7 +33,8 @@ def NoNaN (ω : Oracle) (f : Frame) (by_ : List Str) : Prop :=
 /-- goframe's comparator is a strict weak order on homogeneous columns -/
 theorem less_swo (ω : Oracle) (f : Frame) (by_ : List Str) (asc : Bool)
     (hh : Homog ω f by_) (hn : NoNaN ω f by_) : StrictWeakOrder (f.less ω by_ asc) := by
-  sorry
+  have h := SortLemmas.less_swo ω f by_ asc hh (colData_noNaN hn)
+  exact ⟨h.irrefl, h.trans, h.incomp_trans⟩
 
 /-- …and it is the specification's order: nil last in both directions, numbers by value, text
 bytewise, direction applied, earlier columns first -/
@@ -41,7 +43,10 @@ theorem less_is_spec (ω : Oracle) {f : Frame} {n : Nat} (hs : f.Sorted) (hr : f
     f.less ω by_ asc i j =
       Spec.specLt ω (by_.map (fun k => Spec.classify ω ((Spec.rowsOf f).map (fun r => Row.getD r k)))) asc
         (by_.map (fun k => Row.getD (f.rowMap i) k)) (by_.map (fun k => Row.getD (f.rowMap j) k)) := by
-  sorry
+  -- `hs`, `hi`, `hj` are not needed: `Row.getD` and `get?` both read the first entry for a key, and
+  -- a cell out of range reads as `nil` on both sides
+  have _ := hs; have _ := hi; have _ := hj
+  exact less_eq_specLt ω hr by_ asc hby hh i j
 
 /-- the result has the same columns, its rows are a permutation of the input rows (cells of a row stay
 together) and no later row sorts strictly before an earlier one -/
@@ -49,17 +54,34 @@ theorem sort_spec (sorter : (Nat → Nat → Bool) → List Nat → List Nat) (h
     (ω : Oracle) {f : Frame} {n : Nat} (hs : f.Sorted) (hr : f.RectN n) (by_ : List Str) (asc : Bool)
     (hby : ∀ k ∈ by_, f.has k = true) (hh : Homog ω f by_) (hn : NoNaN ω f by_) :
     ∃ out, f.sortValuesWith sorter ω by_ asc = .ok out ∧ Spec.sortSpec ω f out by_ asc = true := by
-  sorry
+  have _ := hs  -- not needed
+  obtain ⟨hp, hpw⟩ := hc (f.less ω by_ asc) (less_swo ω f by_ asc hh hn) (List.range f.nrows)
+  refine ⟨permute f (sorter (f.less ω by_ asc) (List.range f.nrows)), ?_, ?_⟩
+  · unfold sortValuesWith
+    have : by_.any (fun k => !f.has k) = false := by
+      rw [List.any_eq_false]
+      intro k hk
+      simp [hby k hk]
+    rw [this]
+    rfl
+  · exact sortSpec_permute ω hr by_ asc hby hh _ hp hpw
 
 /-- an unknown sort column is an error -/
 theorem sort_missing (sorter : (Nat → Nat → Bool) → List Nat → List Nat) (ω : Oracle) (f : Frame)
     (by_ : List Str) (asc : Bool) (h : ∃ k ∈ by_, f.has k = false) :
     (f.sortValuesWith sorter ω by_ asc).isErr = true := by
-  sorry
+  obtain ⟨k, hk, hf⟩ := h
+  unfold sortValuesWith
+  have : by_.any (fun k => !f.has k) = true := by
+    rw [List.any_eq_true]
+    exact ⟨k, hk, by simp [hf]⟩
+  rw [this]
+  rfl
 
 /-- the contract is inhabited by what `sort.Sort` does for at most 12 rows (insertion sort) -/
 theorem insertionSort_contract : SortContractSWO (fun lt xs => insertionSort lt xs) := by
-  sorry
+  intro lt h xs
+  exact insertionSort_ok ⟨h.irrefl, h.trans, h.incomp_trans⟩ xs
 
 /-- the homogeneity hypothesis is forced: on the column "10", "9", "1a" the comparator has a 3-cycle
 (9 < 10 numerically, "10" < "1a" and "1a" < "9" as text) -/
